@@ -135,15 +135,9 @@ Theorem no_with_block_callers : with_block_users = [].
 Proof. exact no_with_block_users. Qed.
 Print Assumptions no_with_block_callers.
 
-(* upgrades of files written by older releases are outside the model (open answers EOutOfModel for them);
-   what is read off the source is their transaction structure: every upgrade script is a single
-   BEGIN..COMMIT transaction that also rewrites the version row, so a kill leaves the old or the new file.
-   (The kill experiments exercise them on real version-1 files.) *)
-Theorem upgrades_are_single_transactions : upgrade_scripts_atomic = true.
-Proof. exact upgrade_scripts_atomic_true. Qed.
-Print Assumptions upgrades_are_single_transactions.
-
-(* ... and for any store meeting the contract a script run as one transaction is all or nothing: at every
+(* upgrades of files written by older releases: props/C19x.v (statement-level transaction model); here only the
+   store-level fact they rest on: *)
+(* for any store meeting the contract a script run as one transaction is all or nothing: at every
    kill instant the published content is the old one, except after the final COMMIT, where every statement
    has been applied; a failing statement publishes nothing. *)
 Theorem atomic_script_all_or_nothing : forall (S : Type) (O : store_ops S) sc m,
